@@ -79,8 +79,14 @@ StepLine == /\ Ev.k = "line"
             /\ obs' = Ev.vals
             /\ UNCHANGED fld
 
+(* a query of the history raised an exception inside the library *)
+StepRaise == /\ Ev.k = "raise"
+             /\ Verd(FALSE, "call-raises")
+             /\ act' = <<"raise">>
+             /\ UNCHANGED <<fld, obs>>
+
 TNext == /\ l < Len(Traces[tid].ev)
-         /\ (StepSet \/ StepBad \/ StepCall \/ StepComp \/ StepIter \/ StepLine)
+         /\ (StepSet \/ StepBad \/ StepCall \/ StepComp \/ StepIter \/ StepLine \/ StepRaise)
          /\ l' = l + 1
          /\ UNCHANGED <<mesh, subs, nv, tid>>
 TSpec == TInit /\ [][TNext]_tvars
